@@ -112,10 +112,7 @@ func checkC05(e *Env) {
 	forAllIterations(e, "FORALL", rd, "call:bundle.loadMetadata(*)#0.requests", noCfg,
 		gate.CallOK("D.each", "bundle.loadResponse", "call:bundle.loadMetadata(*)#0.requests[rangeidx]", "call:i*.ReadAll(param:r)#0"))
 	forAllIterations(e, "FORALL", rd, "call:bundle.loadMetadata(*)#0.requests", noCfg,
-		gate.Gate{Key: "D.keep", Desc: "the loaded exchange is appended", Instr: func(in ssa.Instruction) bool {
-			c, ok := in.(*ssa.Call)
-			return ok && prov.CalleeName(&c.Call) == "builtin:append" && strings.Contains(prov.Of(c.Call.Args[1]), "bundle.Exchange")
-		}})
+		gate.Gate{Key: "D.keep", Desc: "the loaded exchange is appended", Instr: collects("bundle.Exchange")})
 	e.R.Floor("GATE", 20)
 	e.R.Floor("FORALL", 11)
 	_ = load.FuncName
